@@ -3,7 +3,7 @@ the real classes over all Locs(G,K), judged by TLC (C01Trace)."""
 import random
 
 from bcverif import encode as E
-from bcverif.runner import pmap, setup_repo_import
+from bcverif.runner import pmap, setup_repo_import, suite_events
 
 
 def _parent(kind, G):
@@ -115,6 +115,8 @@ def run(chk):
     bigo = _random_locs(rnd, 40 if quick else 200, 40, 4)
     parts = pmap(_rel_events, [(bigo[i::16], bigq, 40) for i in range(16)])
     evs += [e for p in parts for e in p]
+    # leg S: the calls the repository's own tests make, judged with the same clauses
+    evs += suite_events(chk, "C01Trace")
     chk.validate("C01Trace", evs, shard=1500, label="maps", keyfn=_key)
     chk.exhaustive = True
     chk.nontrivial = len(locs) + len(rel)
